@@ -1,6 +1,8 @@
 package c02
 
 import (
+	"bytes"
+	"compress/gzip"
 	"expvar"
 	"fmt"
 	"io"
@@ -35,12 +37,47 @@ var fenceDBRP = kapacitor.DBRP{Database: "_fence", RetentionPolicy: "f"}
 // World is one real TaskMaster with a permanently running fence task on its
 // own dbrp, and the real HTTP handler wired to it.
 type World struct {
-	Env   *rt.Env
-	HTTP  *httpd.Handler
-	fence int // fence points seen since the last Diag.Clear
-	trNo  int
-	dead  atomic.Bool // a lifecycle call is stuck: nothing more can be asked of this TaskMaster
-	snaps *snapStore
+	Env      *rt.Env
+	HTTP     *httpd.Handler
+	fence    int // fence points seen since the last Diag.Clear
+	trNo     int
+	dead     atomic.Bool // a lifecycle call is stuck: nothing more can be asked of this TaskMaster
+	snaps    *snapStore
+	notDying int // dying tasks that were still alive after 60 feeding writes
+	deaths   int // dying tasks whose source node had failed (fork edge aborted) by the time they were stopped
+}
+
+// dieHTTPD is the TaskMaster's HTTP service: it refuses the route of an httpOut
+// node named dieEndpoint (as the real service refuses a conflicting pattern),
+// which makes that node fail as soon as it runs.
+type dieHTTPD struct{ *rt.FakeHTTPD }
+
+func (d dieHTTPD) AddRoutes(rs []httpd.Route) error {
+	for _, r := range rs {
+		if strings.HasSuffix(r.Pattern, "/"+dieEndpoint) {
+			return fmt.Errorf("route conflict: %s", r.Pattern)
+		}
+	}
+	return d.FakeHTTPD.AddRoutes(rs)
+}
+
+// nodeFailed reports whether a node of task id whose name starts with prefix has
+// reported "node failed" since the last Diag.Clear.
+func (w *World) nodeFailed(id, prefix string) bool {
+	for _, e := range w.Env.Diag.Errors() {
+		if e.Msg == "node failed" && strings.Contains(e.Ctx, "task:"+id+"/node:"+prefix) {
+			return true
+		}
+	}
+	return false
+}
+
+// settle gives the nodes of a dying task a moment to process what was just
+// forked (bounded, never a verdict: it only speeds up the dying).
+func (w *World) settle(id string) {
+	for i := 0; i < 20 && !w.nodeFailed(id, "stream"); i++ {
+		time.Sleep(100 * time.Microsecond)
+	}
 }
 
 // snapStore is the TaskMaster's TaskStore: it claims a (corrupt) snapshot for
@@ -95,6 +132,7 @@ func NewWorld() (*World, error) {
 	env.TM.DefaultRetentionPolicy = defaultRP
 	w := &World{Env: env, snaps: &snapStore{fail: map[string]bool{}}}
 	env.TM.TaskStore = w.snaps
+	env.TM.HTTPDService = dieHTTPD{env.HTTPD}
 	if _, err := env.StartTask("fence", "stream\n    |from()\n    |log()\n        .prefix('fence')\n", kapacitor.StreamTask, []kapacitor.DBRP{fenceDBRP}); err != nil {
 		env.Close()
 		return nil, fmt.Errorf("fence task: %w", err)
@@ -147,12 +185,30 @@ func (h httpDiag) RecoveryError(msg, err, host, username string, start time.Time
 }
 
 // writeHTTP sends the points as line protocol through the real /write handler.
-func (w *World) writeHTTP(db, rp string, lines []string) int {
+// enc: "" plain with Content-Length, "gzip" gzip with Content-Length (what Telegraf
+// or a client library with compression sends), "chunked"/"gzip-chunked" body of
+// unknown length (Content-Length -1, as with Transfer-Encoding: chunked).
+func (w *World) writeHTTP(db, rp string, lines []string, enc string) int {
 	url := "/kapacitor/v1/write?precision=s&db=" + db
 	if rp != "" {
 		url += "&rp=" + rp
 	}
-	req := httptest.NewRequest("POST", url, strings.NewReader(strings.Join(lines, "\n")+"\n"))
+	payload := []byte(strings.Join(lines, "\n") + "\n")
+	if strings.HasPrefix(enc, "gzip") {
+		var buf bytes.Buffer
+		zw := gzip.NewWriter(&buf)
+		zw.Write(payload)
+		zw.Close()
+		payload = buf.Bytes()
+	}
+	var body io.Reader = bytes.NewReader(payload) // httptest sets ContentLength from a *bytes.Reader
+	if strings.HasSuffix(enc, "chunked") {
+		body = struct{ io.Reader }{body} // unknown length: ContentLength = -1
+	}
+	req := httptest.NewRequest("POST", url, body)
+	if strings.HasPrefix(enc, "gzip") {
+		req.Header.Set("Content-Encoding", "gzip")
+	}
 	rec := httptest.NewRecorder()
 	w.HTTP.ServeHTTP(rec, req)
 	return rec.Code
